@@ -41,7 +41,8 @@ class LambdaTokenTranslator(AbstractTranslator):
         if getattr(getattr(token.expression, 'left_operand', None), 'value', None) \
                 and isinstance(token.expression.left_operand.value[0], PatternToken):
             return context.set_sub_cell(
-                token.in_cell, f'lambda x: re.match({condition_value}, str(x))'
+                token.in_cell, f'lambda x: isinstance(x, str) and '
+                               f're.fullmatch({condition_value}, x, re.IGNORECASE | re.DOTALL) is not None'
             )
 
         return context.set_sub_cell(
